@@ -150,13 +150,19 @@ func VerifVaralign(rawLines []string, mode string) (res VerifLayoutResult) {
 	var out bytes.Buffer
 	res.Panicked = VerifPanic(func() {
 		verifC15Setup(&out)
-		if mode == "describe" {
+		if strings.HasPrefix(mode, "describe") {
 			G.Logger.Opts.Autofix = false
 		}
+		// mode suffix "/nonl": the file does not end with a newline (the last raw
+		// line is stored without "\n" in Autofix.texts)
+		noFinalNewline := strings.HasSuffix(mode, "/nonl")
+		mode = strings.TrimSuffix(mode, "/nonl")
 		var sb strings.Builder
-		for _, l := range rawLines {
+		for i, l := range rawLines {
 			sb.WriteString(l)
-			sb.WriteString("\n")
+			if !(noFinalNewline && i == len(rawLines)-1 && l != "") {
+				sb.WriteString("\n")
+			}
 		}
 		lines := convertToLogicalLines(NewCurrPath("verif.mk"), sb.String(), true)
 		mklines := NewMkLines(lines, nil, nil)
